@@ -142,15 +142,22 @@ pub struct Obs {
     pub total: u32,
     pub glob: Vec<Option<u32>>,
     pub otok: Vec<Vec<Option<u32>>>,
+    /// getters that never fail in the model but trapped in the implementation are printed as impossible values
+    /// (a number beyond u32, an address / operator outside the universe) so that diff and monitor flag them
+    pub next_failed: bool,
+    pub total_failed: bool,
+    pub bal_failed: Vec<bool>,
 }
+pub const FAIL_N: u64 = 4_294_967_296; // u32::MAX + 1
+pub const FAIL_ADDR: usize = 4_294_967_295;
 impl Obs {
-    pub fn owner(&self, id: u32) -> Option<usize> { self.owners.iter().find(|p| p.0 == id).and_then(|p| p.1) }
+    pub fn owner(&self, id: u32) -> Option<usize> { self.owners.iter().find(|p| p.0 == id).and_then(|p| p.1).filter(|a| *a < 1_000_000) }
     pub fn existing(&self) -> Vec<u32> { self.owners.iter().filter(|p| p.1.is_some()).map(|p| p.0).collect() }
-    pub fn approved(&self, id: u32) -> Option<usize> { self.appr.iter().find(|p| p.0 == id).and_then(|p| p.1) }
+    pub fn approved(&self, id: u32) -> Option<usize> { self.appr.iter().find(|p| p.0 == id).and_then(|p| p.1).filter(|a| *a < 1_000_000) }
     pub fn coq(&self) -> String {
         let on = |o: &Option<usize>| opt(o.map(|a| n(a as u64)));
         let owners: Vec<String> = self.owners.iter().map(|(i, o)| pair(&n(*i as u64), &on(o))).collect();
-        let bals: Vec<String> = self.bals.iter().enumerate().map(|(a, b_)| pair(&n(a as u64), &n(*b_ as u64))).collect();
+        let bals: Vec<String> = self.bals.iter().enumerate().map(|(a, b_)| pair(&n(a as u64), &n(if self.bal_failed.get(a).copied().unwrap_or(false) { FAIL_N } else { *b_ as u64 }))).collect();
         let appr: Vec<String> = self.appr.iter().map(|(i, o)| pair(&n(*i as u64), &on(o))).collect();
         let oper: Vec<String> = self.oper.iter().map(|((o, p), v)| pair(&pair(&n(*o as u64), &n(*p as u64)), &b(*v))).collect();
         let glob: Vec<String> = self.glob.iter().map(|o| opt(o.map(|v| n(v as u64)))).collect();
@@ -158,8 +165,8 @@ impl Obs {
             let items: Vec<String> = l.iter().map(|o| opt(o.map(|v| n(v as u64)))).collect();
             pair(&n(a as u64), &list(&items))
         }).collect();
-        format!("mkObs {} {} {} {} {} {} {} {}", n(self.next as u64), list(&owners), list(&bals), list(&appr), list(&oper),
-                n(self.total as u64), list(&glob), list(&otok))
+        format!("mkObs {} {} {} {} {} {} {} {}", n(if self.next_failed { FAIL_N } else { self.next as u64 }), list(&owners), list(&bals), list(&appr), list(&oper),
+                n(if self.total_failed { FAIL_N } else { self.total as u64 }), list(&glob), list(&otok))
     }
 }
 
@@ -191,6 +198,11 @@ pub fn max_batch() -> u32 { stellar_tokens::non_fungible::consecutive::storage::
 
 impl World {
     pub fn new(fl: Fl, naddr: usize, now0: u32, min_ttl: u32, max_ttl: u32, sample: Option<u32>) -> World {
+        World::new_with(fl, naddr, now0, min_ttl, max_ttl, if max_ttl < 4096 { max_ttl } else { 4096 }, sample)
+    }
+    /// `min_persist` = min_persistent_entry_ttl: the lifetime the contract instance and every freshly written
+    /// persistent entry get
+    pub fn new_with(fl: Fl, naddr: usize, now0: u32, min_ttl: u32, max_ttl: u32, min_persist: u32, sample: Option<u32>) -> World {
         let e = Env::default();
         e.cost_estimate().budget().reset_unlimited();
         e.cost_estimate().disable_resource_limits();
@@ -198,7 +210,7 @@ impl World {
             l.sequence_number = now0;
             l.min_temp_entry_ttl = min_ttl;
             l.max_entry_ttl = max_ttl;
-            l.min_persistent_entry_ttl = if max_ttl < 4096 { max_ttl } else { 4096 };
+            l.min_persistent_entry_ttl = min_persist;
         });
         let id = match fl {
             Fl::Base => e.register(base_c::BaseC, ()),
@@ -213,7 +225,7 @@ impl World {
         w
     }
 
-    fn idx(&self, a: &Address) -> usize { self.addrs.iter().position(|x| x == a).expect("address outside the universe") }
+    fn idx(&self, a: &Address) -> usize { self.addrs.iter().position(|x| x == a).unwrap_or(FAIL_ADDR - 1) }
 
     fn invoke<T: soroban_sdk::TryFromVal<Env, Val>>(&self, f: &str, args: soroban_sdk::Vec<Val>) -> Option<T> {
         match self.e.try_invoke_contract::<T, soroban_sdk::Error>(&self.id, &Symbol::new(&self.e, f), args) {
@@ -254,27 +266,35 @@ impl World {
 
     pub fn observe(&self, rng: &mut Rng) -> Obs {
         let e = &self.e;
-        let next: u32 = self.invoke("next_id", soroban_sdk::vec![e]).expect("next_id");
+        // every read is a try-call: a getter that traps becomes an observation, never a harness abort
+        let next_r: Option<u32> = self.invoke("next_id", soroban_sdk::vec![e]);
+        let next = next_r.unwrap_or(self.last.next);
         let qids = self.query_ids(next, rng);
-        let mut o = Obs { next, ..Default::default() };
+        let mut o = Obs { next, next_failed: next_r.is_none(), ..Default::default() };
         for &i in &qids {
             let ow: Option<Address> = self.invoke("owner_of", soroban_sdk::vec![e, i.into_val(e)]);
             o.owners.push((i, ow.map(|a| self.idx(&a))));
             let ap: Option<Option<Address>> = self.invoke("get_approved", soroban_sdk::vec![e, i.into_val(e)]);
-            o.appr.push((i, ap.expect("get_approved never fails").map(|a| self.idx(&a))));
+            o.appr.push((i, match ap { Some(v) => v.map(|a| self.idx(&a)), None => Some(FAIL_ADDR) }));
         }
         for a in &self.addrs {
-            let bl: u32 = self.invoke("balance", soroban_sdk::vec![e, a.into_val(e)]).expect("balance");
-            o.bals.push(bl);
+            let bl: Option<u32> = self.invoke("balance", soroban_sdk::vec![e, a.into_val(e)]);
+            o.bals.push(bl.unwrap_or(0));
+            o.bal_failed.push(bl.is_none());
         }
         for (i, a) in self.addrs.iter().enumerate() {
             for (j, c) in self.addrs.iter().enumerate() {
-                let v: bool = self.invoke("is_approved_for_all", soroban_sdk::vec![e, a.into_val(e), c.into_val(e)]).expect("is_approved_for_all");
-                o.oper.push(((i, j), v));
+                let v: Option<bool> = self.invoke("is_approved_for_all", soroban_sdk::vec![e, a.into_val(e), c.into_val(e)]);
+                match v {
+                    Some(v) => o.oper.push(((i, j), v)),
+                    None => { o.oper.push(((i, j), false)); o.oper.push(((i, FAIL_ADDR), true)); }
+                }
             }
         }
         if self.fl == Fl::Enum {
-            o.total = self.invoke("total_supply", soroban_sdk::vec![e]).expect("total_supply");
+            let t: Option<u32> = self.invoke("total_supply", soroban_sdk::vec![e]);
+            o.total = t.unwrap_or(0);
+            o.total_failed = t.is_none();
             for k in 0..o.total.saturating_add(2) {
                 o.glob.push(self.invoke::<u32>("get_token_id", soroban_sdk::vec![e, k.into_val(e)]));
             }
@@ -388,7 +408,12 @@ pub struct Profile {
     pub batches: Vec<u32>,
     /// stop minting when next_id (or the number of explicit mints) reaches this
     pub max_ids: u32,
+    /// per cent of the Advance calls that jump far (20 .. 4 000 000 ledgers) in ONE step, so that the observation
+    /// right after it sees any entry that silently lapsed
+    pub p_long_advance: u64,
 }
+
+pub const LONG_GAPS: [u32; 6] = [20, 100, 17_281, 20_000, 600_000, 4_000_000];
 
 pub const EXPLICIT_BASE: u32 = 1000;
 
@@ -428,7 +453,7 @@ impl World {
             0 | 1 => owner.unwrap_or_else(|| self.rand_addr(rng)),
             2 | 3 | 4 => self.last.approved(id).unwrap_or_else(|| self.rand_addr(rng)),
             5 | 6 | 7 => {
-                let ops: Vec<usize> = self.last.oper.iter().filter(|((o, _), v)| *v && Some(*o) == owner).map(|((_, p), _)| *p).collect();
+                let ops: Vec<usize> = self.last.oper.iter().filter(|((o, q_), v)| *v && Some(*o) == owner && *q_ < 1_000_000).map(|((_, p), _)| *p).collect();
                 if ops.is_empty() { self.rand_addr(rng) } else { *rng.pick(&ops) }
             }
             // an account that was approved for this token at some time (possibly expired, revoked, cleared by a move)
@@ -510,7 +535,7 @@ impl World {
             let approver = match rng.below(10) {
                 0..=5 => owner.unwrap_or_else(|| self.rand_addr(rng)),
                 6 | 7 => {
-                    let ops: Vec<usize> = self.last.oper.iter().filter(|((o, _), v)| *v && Some(*o) == owner).map(|((_, q), _)| *q).collect();
+                    let ops: Vec<usize> = self.last.oper.iter().filter(|((o, q_), v)| *v && Some(*o) == owner && *q_ < 1_000_000).map(|((_, q), _)| *q).collect();
                     if ops.is_empty() { self.rand_addr(rng) } else { *rng.pick(&ops) }
                 }
                 _ => self.rand_addr(rng),
@@ -524,7 +549,63 @@ impl World {
             let op = self.rand_addr(rng);
             return Call::ApproveForAll { auths: draw_auths(rng, ow, na, p.p_wrong_auth), owner: ow, operator: op, live_until: self.pick_live_until(rng) };
         }
-        // advance: small steps, or exactly onto / just past the expiry of some approval in force
+        // advance: small steps, or one very long gap
+        if rng.below(100) < p.p_long_advance && self.now < 3_000_000_000 { return Call::Advance(*rng.pick(&LONG_GAPS)); }
         Call::Advance(1 + rng.below(4) as u32)
+    }
+}
+
+
+/// Persistence across long ledger gaps, for every kind of stored item of the three flavours: owners, balances,
+/// the id counter, both enumerations and their reverse indexes, consecutive buckets / owner markers / burnt flags,
+/// and approvals / operators up to their live_until.  Each gap is ONE Advance, so the full observation right after
+/// it sees anything that lapsed; then calls follow that read the entries used only on mutation paths.
+pub fn persistence_scenarios(out: &mut Out, rng: &mut Rng) {
+    let tr = |from: usize, to: usize, id: u32| Call::Transfer { auths: vec![from], from, to, id };
+    let bu = |from: usize, id: u32| Call::Burn { auths: vec![from], from, id };
+    // (min_temp_entry_ttl, max_entry_ttl, min_persistent_entry_ttl)
+    for (ci, (min_ttl, max_ttl, min_persist)) in [(1u32, 6_312_000u32, 4096u32), (16, 1000, 1000), (16, 10_000_001, 10_000_000)].iter().enumerate() {
+        for fl in [Fl::Base, Fl::Enum, Fl::Cons] {
+            let mut w = World::new_with(fl, 5, 10, *min_ttl, *max_ttl, *min_persist, None);
+            match fl {
+                Fl::Cons => { w.step(out, rng, &Call::BatchMint(0, 4)); w.step(out, rng, &Call::BatchMint(1, 5)); }
+                _ => {
+                    for to in [0usize, 0, 0, 0, 1, 1, 1, 1, 1] { w.step(out, rng, &Call::MintSeq(to)); }
+                    w.step(out, rng, &Call::MintId(2, EXPLICIT_BASE));
+                }
+            }
+            // ids 0..3 -> account 0, 4..8 -> account 1
+            w.step(out, rng, &tr(0, 2, 1));
+            w.step(out, rng, &bu(0, 2));
+            let far = |w: &World, d: u32| if w.max_ttl > d { w.now + d } else { w.now + w.max_ttl - 1 };
+            let lu_a = far(&w, 700_000);
+            w.step(out, rng, &Call::Approve { auths: vec![0], approver: 0, approved: 3, id: 0, live_until: lu_a });
+            let lu_o = far(&w, 5_000_000);
+            w.step(out, rng, &Call::ApproveForAll { auths: vec![1], owner: 1, operator: 4, live_until: lu_o });
+            let lu_s = w.now + 25;
+            w.step(out, rng, &Call::Approve { auths: vec![1], approver: 1, approved: 3, id: 5, live_until: lu_s });
+            for (k, gap) in LONG_GAPS.iter().enumerate() {
+                w.step(out, rng, &Call::Advance(*gap));
+                // entries read only when something moves: reverse indexes, previous-token markers, buckets
+                let id = 3u32;
+                let (from, to) = match w.last.owner(id) { Some(0) => (0usize, 1usize), _ => (1, 0) };
+                w.step(out, rng, &tr(from, to, id));
+                match k {
+                    0 => { w.step(out, rng, &Call::TransferFrom { auths: vec![3], spender: 3, from: 1, to: 3, id: 5 }); }
+                    2 => { w.step(out, rng, &Call::TransferFrom { auths: vec![4], spender: 4, from: 1, to: 4, id: 6 }); }
+                    3 => { w.step(out, rng, &bu(1, 4)); }
+                    4 => { w.step(out, rng, &Call::TransferFrom { auths: vec![3], spender: 3, from: 0, to: 3, id: 0 }); }
+                    5 => { w.step(out, rng, &Call::TransferFrom { auths: vec![4], spender: 4, from: 1, to: 4, id: 7 });
+                           w.step(out, rng, &Call::BurnFrom { auths: vec![4], spender: 4, from: 1, id: 8 }); }
+                    _ => {}
+                }
+            }
+            match fl { Fl::Cons => { w.step(out, rng, &Call::BatchMint(2, 2)); } _ => { w.step(out, rng, &Call::MintSeq(2)); w.step(out, rng, &bu(2, EXPLICIT_BASE)); } }
+            let last = w.last.next.saturating_sub(1);
+            w.step(out, rng, &tr(2, 0, last));
+            w.step(out, rng, &bu(2, 1));
+            w.step(out, rng, &Call::Advance(4_000_000));
+            w.flush(out, &format!("persistence/cfg{}", ci));
+        }
     }
 }
